@@ -53,3 +53,9 @@ func VerifWrapHandlers(op *ShellOperator, onTasks func(kind string, tasks []task
 		return ts
 	}
 }
+
+// VerifScheduleCb returns the callback the events handler calls for a fired crontab (it creates the
+// tasks of every enabled schedule binding with that crontab).
+func VerifScheduleCb(op *ShellOperator) func(crontab string) []task.Task {
+	return op.ManagerEventsHandler.scheduleCb
+}
